@@ -626,3 +626,7 @@ def run(ctx: Ctx):  # noqa: F811
     _flatten_agreement(ctx)
     _sentinel_discipline(ctx)
     _special_registration(ctx)
+    # "the test vectors satisfy C17" for an evolved metamodel: the composite generators folded on synthetic types that
+    # today's metamodel does not contain (anonymous literals with optional properties, ...), shared with C17
+    from . import c17 as _c17
+    _c17._fold_composite_labels(ctx)
